@@ -214,6 +214,14 @@ impl ExpertNode {
             let Some(child) = child else {
                 return;
             };
+            #[cfg(cormacrelf_incremental_rs_verif)]
+            crate::verif::ev(
+                "expert_edge_cb",
+                &[
+                    ("child", crate::verif::nix(child.erased_input())),
+                    ("ix", child_index as i64),
+                ],
+            );
             child.on_change()
         }
     }
